@@ -75,6 +75,8 @@ DIRECTED = [
     '```a fox``q```\n', '![a a](x)\n', 'yz!\\\n[a](<http://example.com/with space>)\\\nbe over\n',
     '\n[![markdown!][Foo  Bar]](a%20b ) a\n===\n', 'wrap!\\\n[a `rendering` of](/frag (lazy yz size the wrap jumps) ) a\n',
     '> aaa bbb ccc\n', '- aaa bbb ccc\n', '1. > - aaa bbb ccc ddd\n',
+    # hard line breaks whose marker stands alone (blank before the backslash) or follows markup
+    'first line \\\nsecond line here\n', '*emph* \\\nnext words follow\n', 'aa bb \\\ncc dd ee\n', 'a b  \nc d e f\n',
 ]
 
 
